@@ -98,28 +98,41 @@ def r2_bias_equals_length(ctx: Ctx) -> None:
             branch = st
     if branch is None:
         raise AnalysisError("RelativeJumpOpcode.emit: ExpressionNode branch not found")
+    from ..poly import poly, poly_of_source, show as show_poly
     packs = calls_in(fn.node, "struct.pack")
     var = unparse(packs[0].args[1])
-    env: dict[str, dict[str, int]] = {}
-    sources: dict[str, str] = {}
+    penv: dict[str, object] = {}
+
+    def P(e: ast.AST):
+        class Sub(ast.NodeTransformer):
+            def visit_Name(self, n: ast.Name) -> ast.AST:
+                return n
+        # evaluate with the polynomials known so far substituted for names
+        from ..poly import _add, _mul  # noqa: F401
+        def ev(n: ast.AST):
+            if isinstance(n, ast.Name) and n.id in penv:
+                return dict(penv[n.id])  # type: ignore[arg-type]
+            if isinstance(n, ast.BinOp) and isinstance(n.op, (ast.Add, ast.Sub)):
+                a, b = ev(n.left), ev(n.right)
+                return _add(a, b, 1 if isinstance(n.op, ast.Add) else -1)
+            if isinstance(n, ast.UnaryOp) and isinstance(n.op, ast.USub):
+                return _mul({(): -1}, ev(n.operand))
+            return poly(n)
+        return ev(e)
+
     for st in branch.body:
         if isinstance(st, ast.Assign) and isinstance(st.targets[0], ast.Name):
-            name = st.targets[0].id
-            try:
-                env[name] = _linear(st.value, env)
-            except AnalysisError:
-                sources[name] = unparse(st.value)
-                env.pop(name, None)
+            penv[st.targets[0].id] = P(st.value)
         elif isinstance(st, ast.AugAssign) and isinstance(st.target, ast.Name) and isinstance(st.op, (ast.Add, ast.Sub)):
-            env[st.target.id] = _linear(ast.BinOp(ast.Name(st.target.id, ast.Load()), st.op, st.value), env)
-    if var not in env:
+            penv[st.target.id] = P(ast.BinOp(ast.Name(st.target.id, ast.Load()), st.op, st.value))
+    if var not in penv:
         raise AnalysisError("RelativeJumpOpcode.emit: displacement not assigned in the ExpressionNode branch")
-    lin = env[var]
-    named = {sources.get(k, k): v for k, v in lin.items() if k}
-    dest = "resolver.get_bus().get_address(value).physical"
-    ok = named == {dest: 1, "resolver.pc": -1}
-    ctx.check(ok, "RelativeJumpOpcode.emit:displacement-terms", f"displacement = target.physical - resolver.pc (+const); found {named}")
-    ctx.check(lin.get("", 0) == -length, "RelativeJumpOpcode.emit:bias", f"the constant bias is {lin.get('', 0)}; the branch is relative to the next instruction, i.e. -supposed_length() = {-length}")
+    got = penv[var]
+    const = got.get((), 0)  # type: ignore[union-attr]
+    terms = {k: v for k, v in got.items() if k}  # type: ignore[union-attr]
+    want_terms = {k: v for k, v in poly_of_source("resolver.get_bus().get_address(value).physical - resolver.pc").items() if k}
+    ctx.check(terms == want_terms, "RelativeJumpOpcode.emit:displacement-terms", f"displacement = target.physical - resolver.pc (+const); found {show_poly(got)}")  # type: ignore[arg-type]
+    ctx.check(const == -length, "RelativeJumpOpcode.emit:bias", f"the constant bias is {const}; the branch is relative to the next instruction, i.e. -supposed_length() = {-length}")
     vsrc = [n for n in walk_no_nested(fn.node) if isinstance(n, ast.Assign) and unparse(n.targets[0]) == "value"]
     ctx.check(len(vsrc) == 1 and unparse(vsrc[0].value) == f"{fn.params()[1]}.get_value()", "RelativeJumpOpcode.emit:target", "the target is the operand's value")
     # resolver.pc is the branch's own offset: Program.emit advances pc after the node emitted
